@@ -352,6 +352,8 @@ def run(tier):
     zero_stripping_direction(chk)
     pubexp_width_gate(chk)
     modpow_temporaries(chk)
+    from .c11 import decode_mod_covers_source
+    decode_mod_covers_source(chk)
     chk.floor("C10 obligations", len(chk.obls), 90)
     from .. import lints
     lints.length_is_boolean(chk, ['src/rsa/'])
